@@ -12,7 +12,12 @@ package PKGNAME
 //verif:summarize solver).divByCoeff verifSummary_divByCoeff
 
 import (
+	"errors"
+	"math"
+	"math/big"
+
 	"github.com/consensys/gnark/constraint"
+	csolver "github.com/consensys/gnark/constraint/solver"
 	fr "FRPKG"
 )
 
@@ -224,3 +229,74 @@ func verifHarness_solveR1C_121() { verifSolveR1C(1, 2, 1) }
 func verifHarness_solveR1C_112() { verifSolveR1C(1, 1, 2) }
 func verifHarness_solveR1C_011() { verifSolveR1C(0, 1, 1) }
 func verifHarness_solveR1C_110() { verifSolveR1C(1, 1, 0) }
+
+
+// solveWithHint: the hint function receives exactly the values of its input expressions
+// (constant terms included) and its outputs land on the wires of the output range; an error of
+// the hint is an error of the solver; a missing hint function is an error.
+var (
+	verifHintIns []fr.Element
+	verifHintOut fr.Element
+	verifHintErr bool
+)
+
+func verifHintFn(q *big.Int, ins, outs []*big.Int) error {
+	verifHintIns = nil
+	for _, b := range ins {
+		var e fr.Element
+		e.SetBigInt(b)
+		verifHintIns = append(verifHintIns, e)
+	}
+	verifHintOut.BigInt(outs[0])
+	if verifHintErr {
+		return errors.New("hint failed")
+	}
+	return nil
+}
+
+func verifHarness_solveWithHint() {
+	s := verifMkSolver(constraint.SystemR1CS, 1)
+	s.q = big.NewInt(0)
+	// coefficient ids are fixed (the two symbolic table entries 5, 6 and the constant 2: the per-id
+	// fast paths are the subject of the accumulateInto harness), wire ids are symbolic
+	t0, t1, t2 := verifTerm("t0"), verifTerm("t1"), verifTerm("t2")
+	t0.CID, t1.CID, t2.CID = 5, 6, 2
+	kc := uint32(6)
+	// contract (level builder): inputs are solved wires, the output wire is not and is not an input
+	for _, t := range []constraint.Term{t0, t1, t2} {
+		verifAssume(t.VID < 2)
+		verifAssume(s.solved[t.VID])
+	}
+	verifAssume(!s.solved[2])
+	pre := append([]fr.Element{}, s.values...)
+	h := &constraint.HintMapping{HintID: 7,
+		Inputs:      []constraint.LinearExpression{{t0, constraint.Term{CID: kc, VID: math.MaxUint32}}, {t1, t2}},
+		OutputRange: struct{ Start, End uint32 }{2, 3}}
+	s.mHintsFunctions = map[csolver.HintID]csolver.Hint{7: verifHintFn}
+	verifHintOut = verifNondetFr("hint.out")
+	verifHintErr = verifNondetBool("hint.fails")
+	err := s.solveWithHint(h)
+	verifAssert((err != nil) == verifHintErr, "the solver fails exactly when the hint function fails")
+	verifAssert(len(verifHintIns) == 2, "the hint receives one value per input expression")
+	if len(verifHintIns) == 2 {
+		var want0, want1, e fr.Element
+		e.Mul(&s.Coefficients[t0.CID], &pre[t0.VID])
+		want0.Add(&e, &s.Coefficients[kc])
+		e.Mul(&s.Coefficients[t1.CID], &pre[t1.VID])
+		want1.Set(&e)
+		e.Mul(&s.Coefficients[t2.CID], &pre[t2.VID])
+		want1.Add(&want1, &e)
+		verifAssert(verifHintIns[0].Equal(&want0), "a hint input is the value of its linear expression, constant term included")
+		verifAssert(verifHintIns[1].Equal(&want1), "a hint input is the value of its linear expression")
+	}
+	if err == nil {
+		verifAssert(s.solved[2] && s.values[2].Equal(&verifHintOut), "the hint's output lands on the wire of the output range")
+	}
+	verifAssert(s.values[0].Equal(&pre[0]) && s.values[1].Equal(&pre[1]), "input wires are left alone")
+	// a hint id without a function
+	h.HintID = 8
+	s2 := verifMkSolver(constraint.SystemR1CS, 1)
+	s2.mHintsFunctions = s.mHintsFunctions
+	verifAssert(s2.solveWithHint(h) != nil, "a missing hint function is an error")
+	verifReach("solve-with-hint")
+}
